@@ -25,7 +25,11 @@ pub fn encode_ordered_value(v: &PropertyValue) -> Vec<u8> {
         PropertyValue::Float(f) => {
             let mut out = Vec::with_capacity(1 + 8);
             out.push(0x03);
-            let bits = f.to_bits();
+            let mut bits = f.to_bits();
+            if bits == (1 << 63) {
+                // -0.0 == +0.0, so both must produce the same key.
+                bits = 0;
+            }
             let sortable = if (bits & (1 << 63)) != 0 {
                 // Negative numbers sort before positives: invert all bits.
                 !bits
